@@ -263,9 +263,12 @@ def budget(tier):
 def gen_case(rng, tier, g):
     case = _gen_case(rng, tier, g)
     case['fluent'] = rng.random() < 0.15
-    if rng.random() < 0.15:
+    r_ = rng.random()
+    if r_ < 0.15:
         case['upstream'] = 'records'
         case['fluent'] = False
+    elif r_ < 0.3:
+        case['upstream'] = 'policy-view'
     # the host application's petl.config / logging set-up must not matter
     cfg = draw_config(rng, 0.12, exclude=('failonerror',))
     if cfg:
@@ -295,7 +298,7 @@ def _gen_case_(rng, tier, g):
     n = rng.randint(0, nmax)
     # (falsy error values are values like any other)
     ev = rng.choice(['none', 'ERR', 'obj', 'none', 'zero', 'empty', 'false',
-                     'class', 'func'])
+                     'class', 'func', 'inst'])
     where = [rng.random() < 0.6 for _ in range(n)]
     # natural-failure forms: which cells are of the failing kind is part of
     # the table (enumerated inside the case as well)
@@ -332,9 +335,14 @@ _TRANSLATE = {1: 'one', 21: 'twenty-one', 41: 'forty-one'}
 class _Marker(object):
     """An error value that happens to be callable (a marker class)."""
 
+    def __repr__(self):
+        return '<marker instance>'      # (no address: event logs are hashed)
 
+
+# (a plain object: equal to nothing but itself, and copy() makes another)
+_EV_INST = _Marker()
 _EVS = {'none': None, 'ERR': 'ERR', 'obj': _EV_OBJ, 'zero': 0, 'empty': '',
-        'false': False, 'class': _Marker, 'func': str}
+        'false': False, 'class': _Marker, 'func': str, 'inst': _EV_INST}
 
 
 def _table(case, natural_fail=None):
@@ -379,6 +387,10 @@ def _is_long(case, r):
     return bool(long) and case['form'] in LONG_FORMS and long[r % len(long)]
 
 
+def _same(v):
+    return v
+
+
 def _build(e, case, fl, policy, mode, tbl):
     """-> view, built with the policy as argument or from the config."""
     if case.get('fluent'):
@@ -396,6 +408,11 @@ def _build(e, case, fl, policy, mode, tbl):
         from petl.util.base import Record
         flds = ['q%d' % i for i in range(len(tbl[0]))]
         tbl = [tbl[0]] + [Record(r, flds) for r in tbl[1:]]
+    if case.get('upstream') == 'policy-view':
+        # the table is itself a convert view with a policy of its own (and
+        # a conversion that never fails): policies are not inherited
+        other = False if policy is True else True
+        tbl = e.convert(tbl, 'id', _same, failonerror=other)
     kw = {}
     if mode == 'arg':
         kw['failonerror'] = policy
@@ -700,7 +717,7 @@ def _match_cell(got, want, fl, ev):
     if isinstance(want, tuple) and want and want[0] == 'NAT':
         return isinstance(got, Exception)
     if want == ('EV',):
-        if ev is _EV_OBJ or callable(ev):
+        if ev is _EV_OBJ or ev is _EV_INST or callable(ev):
             return got is ev
         return got == ev and type(got) is type(ev)
     if type(got) is not type(want):
